@@ -217,3 +217,154 @@ Proof.
     rewrite Hamp, Hla'. change (strip []) with (@nil ascii).
     cbn [app s list_ascii_of_string]. tidy. reflexivity.
 Qed.
+
+(* ---------- what the iterator yields after a loop run ---------- *)
+
+Lemma emit_docs_only pd d ds :
+  emit default_cfg (mk_g (d :: ds) pd) linit
+  = Some (d :: ds, mk_g [] (match ds with
+                            | [] => if str_eqb d (docl []) then pd else true
+                            | _ => true
+                            end)).
+Proof. unfold emit. cbn [linit linebuffer mk_g docbuffer prevdoc reading_alt]. destruct ds; reflexivity. Qed.
+
+Lemma emit_stmt db pd text :
+  good_head (" "%char :: text) ->
+  emit default_cfg (mk_g db pd) (done_state (" "%char :: text))
+  = Some (stmts_of (" "%char :: text) ++ db, mk_g [] (match db with [] => false | _ => true end)).
+Proof.
+  intros Hg. unfold emit, stmts_of. cbn [done_state linebuffer mk_g docbuffer prevdoc reading_alt].
+  unfold nonempty.
+  destruct (good_head_split _ Hg) as (y & ys & Eq & Hy). rewrite Eq. cbn [filter].
+  destruct y as [|c y]; [congruence|]. cbn [map].
+  destruct db; [now rewrite app_nil_r|reflexivity].
+Qed.
+
+Lemma stmt_good_head d : stmt_ok d -> good_head (" "%char :: ds_text d).
+Proof.
+  intros (Hf & _ & _ & _ & Hs & _). destruct (ds_text d) as [|c y]; [destruct Hf|].
+  exists c, y. split; [now left|]. split; [exact Hf|]. unfold head_is in Hs. now rewrite Ascii.eqb_sym.
+Qed.
+
+(* ---------- the loop over one item ---------- *)
+
+Lemma loop_predocs pre : forall db pd rp rest,
+  loop default_cfg (mk_g db pd) (pre_state rp)
+       (map (fun p => spaces (fst p) ++ bang :: ">"%char :: snd p) pre ++ rest)
+  = loop default_cfg (mk_g (db ++ map (fun p => docl (snd p)) pre) pd)
+         (pre_state (match pre with [] => rp | _ => true end)) rest.
+Proof.
+  induction pre as [|[i t] pre IH]; intros db pd rp rest.
+  - simpl. now rewrite app_nil_r.
+  - cbn [map app loop fst snd]. rewrite step_predoc_line. rewrite IH.
+    rewrite <- app_assoc. destruct pre; reflexivity.
+Qed.
+
+Lemma loop_stmt pd d rest :
+  stmt_ok d ->
+  loop default_cfg (mk_g [] pd) linit (render_ditem (DStmt d) ++ rest)
+  = LDone (mk_g (map (fun p => docl (snd p)) (ds_pre d) ++ tail_docs (ds_tail d)) pd)
+          (done_state (" "%char :: ds_text d)) rest.
+Proof.
+  intros Hok. cbn [render_ditem]. rewrite <- app_assoc.
+  change linit with (pre_state false). rewrite loop_predocs. cbn [app loop].
+  rewrite (step_stmt_line _ pd _ d Hok). reflexivity.
+Qed.
+
+Definition ditem_ok (it : ditem) : Prop :=
+  match it with
+  | DBlank _ => True
+  | DComment _ t => plain_comment t
+  | DDoc _ _ => True
+  | DStmt d => stmt_ok d
+  end.
+
+Lemma mk_g_clean : clean (mk_g [] false).
+Proof. repeat split. Qed.
+
+Lemma read_docs_fuel f : forall fuel pd acc,
+  Forall ditem_ok f -> length (render_doc_file f) < fuel ->
+  read_fuel fuel default_cfg (mk_g [] pd) (render_doc_file f) acc = ROk (acc ++ doc_out pd f).
+Proof.
+  induction f as [|it f IH]; intros fuel pd acc Hok Hfuel.
+  - destruct fuel; [simpl in Hfuel; lia|]. simpl. now rewrite app_nil_r.
+  - inversion Hok as [|? ? Hit Hf]; subst.
+    unfold render_doc_file in *. cbn [flat_map] in *. fold (render_doc_file f) in *.
+    rewrite app_length in Hfuel.
+    destruct it as [n|i t|i t|d]; cbn [render_ditem app length doc_out] in *.
+    + (* blank line *)
+      destruct pd.
+      * destruct fuel as [|fuel]; [lia|]. cbn [read_fuel loop].
+        rewrite step_blank_after_doc. rewrite (emit_docs_only true (docl []) []).
+        cbn [str_eqb]. rewrite str_eqb_refl.
+        rewrite (IH fuel true (acc ++ [docl []]) Hf) by (fold (render_doc_file f); lia).
+        now rewrite <- app_assoc.
+      * destruct fuel as [|fuel]; [lia|].
+        specialize (IH (S fuel) false acc Hf). cbn [read_fuel] in *.
+        change (mk_g [] false) with (mk_g [] false) in *.
+        rewrite (loop_skip_blank (mk_g [] false) n _ mk_g_clean). apply IH. fold (render_doc_file f). lia.
+    + (* ordinary comment line *)
+      destruct pd.
+      * destruct fuel as [|fuel]; [lia|]. cbn [read_fuel loop].
+        rewrite (step_comment_after_doc i t Hit). rewrite (emit_docs_only true (docl []) []).
+        rewrite str_eqb_refl.
+        rewrite (IH fuel true (acc ++ [docl []]) Hf) by (fold (render_doc_file f); lia).
+        now rewrite <- app_assoc.
+      * destruct fuel as [|fuel]; [lia|].
+        specialize (IH (S fuel) false acc Hf). cbn [read_fuel] in *.
+        rewrite (loop_skip_comment (mk_g [] false) i t _ mk_g_clean Hit). apply IH. fold (render_doc_file f). lia.
+    + (* documentation line *)
+      destruct fuel as [|fuel]; [lia|]. cbn [read_fuel loop].
+      rewrite step_doc_line. rewrite (emit_docs_only pd (docl t) []).
+      assert (Epd : (if str_eqb (docl t) (docl []) then pd else true) = match t with [] => pd | _ => true end).
+      { destruct t as [|c t']; [now rewrite str_eqb_refl|]. unfold docl. cbn [str_eqb].
+        rewrite !Ascii.eqb_refl. reflexivity. }
+      rewrite Epd.
+      rewrite (IH fuel _ (acc ++ [docl t]) Hf) by (fold (render_doc_file f); lia).
+      now rewrite <- app_assoc.
+    + (* a statement with its documentation *)
+      destruct fuel as [|fuel]; [lia|]. cbn [read_fuel].
+      change (map (fun p => spaces (fst p) ++ bang :: ">"%char :: snd p) (ds_pre d)
+              ++ [spaces (ds_ind d) ++ ds_text d ++ spaces (ds_trail d) ++ render_tail (ds_tail d)])
+        with (render_ditem (DStmt d)).
+      rewrite (loop_stmt pd d _ Hit).
+      rewrite (emit_stmt _ pd _ (stmt_good_head d Hit)).
+      assert (Hlen : 1 <= length (render_ditem (DStmt d))).
+      { cbn [render_ditem]. rewrite app_length. simpl. lia. }
+      rewrite (IH fuel _ _ Hf) by (fold (render_doc_file f); cbn [render_ditem] in *; lia).
+      now rewrite <- !app_assoc.
+Qed.
+
+(* C03, reader: every statement is followed by exactly the documentation written for it (the
+   "!>" lines before it, in order, then its inline "!!" text), documentation lines on their own
+   pass through in order, ordinary comments never appear; whatever the indentation, trailing
+   blanks, blank and comment lines in between *)
+Theorem reader_docs f :
+  Forall ditem_ok f ->
+  read_all default_cfg (render_doc_file f) = ROk (doc_out false f).
+Proof.
+  intros H. unfold read_all. change ginit with (mk_g [] false).
+  rewrite (read_docs_fuel f _ false [] H (Nat.lt_succ_diag_r _)). reflexivity.
+Qed.
+
+Definition mkd (pre : list (nat * str)) (i : nat) (t : str) (tr : nat) (tl : tail) : dstmt :=
+  {| ds_pre := pre; ds_ind := i; ds_text := t; ds_trail := tr; ds_tail := tl |}.
+
+Definition example_docs : list ditem :=
+  [DComment 0 (s " header"); DBlank 0;
+   DStmt (mkd [(0, s " about m"); (2, s " more about m")] 0 (s "module m") 0 TNone);
+   DStmt (mkd [] 2 (s "integer :: x") 1 (TDoc (s " the x ! with a bang")));
+   DDoc 4 (s " second line for x"); DBlank 1; DComment 2 (s " ordinary");
+   DStmt (mkd [(2, s " pre for s")] 2 (s "call f('a!b') ; y = 1") 0 (TComment (s " ordinary trailing")));
+   DStmt (mkd [] 0 (s "end module m") 0 TNone)].
+
+Example example_docs_ok :
+  Forall ditem_ok example_docs /\
+  read_all default_cfg (render_doc_file example_docs)
+  = ROk [s "module m"; s "!! about m"; s "!! more about m";
+         s "integer :: x"; s "!! the x ! with a bang"; s "!! second line for x"; s "!!"; s "!!";
+         s "call f('a!b')"; s "y = 1"; s "!! pre for s"; s "end module m"].
+Proof.
+  split; [|vm_compute; reflexivity].
+  repeat constructor; simpl; repeat split; try reflexivity; try discriminate.
+Qed.
